@@ -19,11 +19,14 @@ ROOT = VERIF + "/seeded"
 
 def one(seed):
     pid = seed.split("_")[0]
+    tier = "quick"
     try:
-        pid = json.load(open(os.path.join(ROOT, seed, "meta.json"))).get("check_with", [pid])[0]  # a few changes belong to another property's check
+        meta = json.load(open(os.path.join(ROOT, seed, "meta.json")))
+        pid = meta.get("check_with", [pid])[0]  # a few changes belong to another property's check
+        tier = meta.get("tier", "quick")        # ... and a few need the thorough tier
     except Exception:
         pass
-    r = subprocess.run(["/venv/bin/python", VERIF + "/tools/seedcheck.py", os.path.join(ROOT, seed), pid, "--keep"], capture_output=True, text=True)
+    r = subprocess.run(["/venv/bin/python", VERIF + "/tools/seedcheck.py", os.path.join(ROOT, seed), pid, "--keep", "--tier", tier], capture_output=True, text=True)
     try:
         res = json.loads(r.stdout[: r.stdout.rindex("}") + 1])
     except Exception:
